@@ -45,6 +45,8 @@ MUTATIONS = [
     ("dask_expr/_shuffle.py", "            (self._name, j): (collect, p, k, df._meta, barrier_token)", "            (self._name, j): (collect, p, j, df._meta, barrier_token)", "vf.contracts.layers:DiskShuffleLayer", "post:K1-outputs-collect-their-group-after-the-barrier"),
     ("dask_expr/_shuffle.py", "            (self._name, j): (collect, p, k, df._meta, barrier_token)", "            (self._name, j): (collect, p, k, df._meta, p)", "vf.contracts.layers:DiskShuffleLayer", "post:K1-outputs-collect-their-group-after-the-barrier"),
     ("dask_expr/_shuffle.py", "            for i, key in enumerate(df.__dask_keys__())\n        }\n\n        # Barrier", "            for i, key in enumerate(df.__dask_keys__()[:-1])\n        }\n\n        # Barrier", "vf.contracts.layers:DiskShuffleLayer", "post:every-input-partition-is-written"),
+    ("dask_expr/io/io.py", "        return (methods.concat, [expr._filtered_task(i) for i in bucket])", "        return (methods.concat, [expr._filtered_task(i) for i in bucket[1:]])", "vf.contracts.partitions:FusedTask", "post:reads-exactly-its-bucket-in-order"),
+    ("dask_expr/io/io.py", "        bucket = self._fusion_buckets[index]\n        return (methods.concat,", "        bucket = self._fusion_buckets[index - 1]\n        return (methods.concat,", "vf.contracts.partitions:FusedTask", "post:reads-exactly-its-bucket-in-order"),
     ("dask_expr/_repartition.py", "        nsplits[-1] += mod\n", "        nsplits[0] += mod\n", "vf.contracts.layers:MoreNSplits", "post:"),
     ("dask_expr/_repartition.py", "        return (None,) * (1 + sum(self._nsplits))", "        return (None,) * (1 + len(self._nsplits))", "vf.contracts.layers:MoreDivisions", "post:length-new+1"),
     ("dask_expr/io/io.py", "        for part, k in enumerate(self.operand(\"keys\")):\n            dsk[(self._name, part)] = k", "        for part, k in enumerate(sorted(self.operand(\"keys\"))):\n            dsk[(self._name, part)] = k", "vf.contracts.layers:FromGraphLayer", "HARMLESS-OR-UNDECIDED"),
